@@ -1,7 +1,7 @@
 (* C04 — Content-Length bodies arrive byte-exact under any read fragmentation.
    This file contains only statements, each closed by [exact] of a lemma from
    proofs/C04_proofs.v, followed by Print Assumptions. *)
-From Verif Require Import lib.Base gen.Gen model.Stream model.Body model.ReqBody proofs.C04_proofs proofs.C04_request.
+From Verif Require Import lib.Base gen.Gen gen.GenLoops model.Stream model.Body model.ReqBody proofs.C04_proofs proofs.C04_request proofs.C04_translated.
 
 (* For every data, declared length (any integer), buffer size > 0 and read
    fragmentation schedule: the body is exactly the first Content-Length bytes
@@ -41,6 +41,26 @@ Theorem C04_F4_requested_size_variant_refuted :
     cl_loop_prefix (S (length data)) (stream_init data sc) buf cl [] <> Some (firstn cl data).
 Proof. exact F4_prefix_variant_truncates. Qed.
 Print Assumptions C04_F4_requested_size_variant_refuted.
+
+(* ---- the loop as translated from the current source ----
+   GenLoops.iter_body is generated from body_mixin.py:_iter_body on every run
+   (tools/gen_loops.py: statement-by-statement translation of the generator).
+   For every data, fragmentation, buffer > 0 and Content-Length (any integer):
+   the parts it yields are non-empty, concatenate to exactly the first
+   Content-Length bytes, the stream is left exactly behind them and no read
+   reached beyond them. *)
+Theorem C04_translated_loop_exact :
+  forall data sc buf cl,
+    0 < buf ->
+    exists parts s',
+      iter_body (S (length data)) (stream_init data sc) (Z.of_nat buf) cl = Some (parts, s')
+      /\ concat parts = firstn (Z.to_nat cl) data
+      /\ Forall nonempty parts
+      /\ rest s' = skipn (Z.to_nat cl) data
+      /\ pos s' = Nat.min (Z.to_nat cl) (length data)
+      /\ reqs_ok buf (Z.to_nat cl) (reqs s').
+Proof. exact translated_loop_exact_lemma. Qed.
+Print Assumptions C04_translated_loop_exact.
 
 (* ---- the Request-level glue (BodyMixin._body / body, Request.copy, Request.__setitem__) ----
    A world (model/ReqBody.v) is the family of request objects descending from one
